@@ -12,6 +12,7 @@
 #include <unistd.h>
 
 #include "libphysica/Integration.hpp"
+#include "libphysica/Linear_Algebra.hpp"
 
 using namespace sim;
 
@@ -26,6 +27,7 @@ enum Probe
 	P_MISER,
 	P_FRONT2D,
 	P_FRONT3D,
+	P_FRONT_SPH,
 	P_VEGAS_MDS_NEG,
 	P_MISER_FLAT,
 	P_NARROW_UNDERFLOW,
@@ -41,7 +43,7 @@ enum Probe
 	P_BUDGET_1E6,
 	P_NPROBES
 };
-const char* PROBE_NAMES[] = {"integrator_calls", "integrand_evaluations", "method_plain_mc", "method_vegas", "method_miser", "frontend_integrate_2d", "frontend_integrate_3d", "vegas_stratification_off_branch(2ng>=50)", "miser_call_with_mostly_flat_zero_integrand", "narrow_peak_underflows_to_zero", "history_vs_pristine_process_comparisons", "repeat_inside_history_comparisons", "accuracy_checks_on_regular_integrands", "accuracy_escalations", "ensemble_bias_tests", "constant_integrand_checks", "fault_entropy_edge_seed(0,1,2^32-1,repeat)", "history_changes_dimension_before_compared_call", "budget_1e5_or_more", "budget_1e6"};
+const char* PROBE_NAMES[] = {"integrator_calls", "integrand_evaluations", "method_plain_mc", "method_vegas", "method_miser", "frontend_integrate_2d", "frontend_integrate_3d", "frontend_integrate_3d_spherical", "vegas_stratification_off_branch(2ng>=50)", "miser_call_with_mostly_flat_zero_integrand", "narrow_peak_underflows_to_zero", "history_vs_pristine_process_comparisons", "repeat_inside_history_comparisons", "accuracy_checks_on_regular_integrands", "accuracy_escalations", "ensemble_bias_tests", "constant_integrand_checks", "fault_entropy_edge_seed(0,1,2^32-1,repeat)", "history_changes_dimension_before_compared_call", "budget_1e5_or_more", "budget_1e6"};
 
 enum Metric
 {
@@ -93,7 +95,9 @@ bool op_to_spec(const Op& o, CallSpec& c)
 			return false;
 	if(c.frontend == 2 && c.ndim != 2)
 		c.frontend = 0;
-	if(c.frontend == 3 && c.ndim != 3)
+	if((c.frontend == 3 || c.frontend == 4) && c.ndim != 3)
+		c.frontend = 0;
+	if(c.frontend == 4 && !(c.lo[0] >= 0 && c.lo[1] >= -1 && c.hi[1] <= 1 && c.lo[2] >= 0 && c.hi[2] <= 2 * M_PI + 1e-12))
 		c.frontend = 0;
 	return true;
 }
@@ -242,6 +246,20 @@ struct Integrand
 		else
 			sup_dev = std::fabs(scale) * pabs + std::fabs((double) mean);
 		smooth = c.family == 1 || c.family == 2 || c.family == 4;
+		if(c.frontend == 4)
+		{
+			// spherical front end: the user function is the constant `scale`, the library multiplies by r^2 itself;
+			// in the integration variables (r, cos theta, phi) the integrand is scale * r^2
+			long double r1 = c.lo[0], r2 = c.hi[0], dc = c.hi[1] - c.lo[1], dp = c.hi[2] - c.lo[2];
+			long double I1 = (r2 * r2 * r2 - r1 * r1 * r1) / 3, I2 = (powl(r2, 5) - powl(r1, 5)) / 5;
+			volume			 = (r2 - r1) * dc * dp;
+			exact			 = scale * I1 * dc * dp;
+			long double mean = exact / volume;
+			long double var	 = (long double) scale * scale * I2 * dc * dp / volume - mean * mean;
+			sigma			 = var > 0 ? (double) sqrtl(var) : 0.0;
+			sup_dev			 = std::max(std::fabs(scale * (double) (r1 * r1) - (double) mean), std::fabs(scale * (double) (r2 * r2) - (double) mean));
+			smooth			 = true;
+		}
 	}
 	double operator()(const double* x) const
 	{
@@ -321,6 +339,38 @@ CallResult run_call(const CallSpec& c, uint32_t seed)
 		};
 		r.value = libphysica::Integrate_3D(f3, c.lo[0], c.hi[0], c.lo[1], c.hi[1], c.lo[2], c.hi[2], method, c.ncalls);
 	}
+	else if(c.frontend == 4)
+	{
+		// Integrate_3D(f(Vector), r1, r2, cos1, cos2, phi1, phi2): the vector handed over must have norm in [r1,r2], polar
+		// cosine in [cos1,cos2] and azimuth in [phi1,phi2]
+		std::function<double(libphysica::Vector)> fv = [&](libphysica::Vector rv) {
+			r.evals++;
+			double x = rv[0], y = rv[1], z = rv[2];
+			r.pthash  = fnv1a(&x, 8, fnv1a(&y, 8, fnv1a(&z, 8, r.pthash)));
+			double rr = std::sqrt(x * x + y * y + z * z);
+			double ct = rr > 0 ? z / rr : c.lo[1];
+			double ph = std::atan2(y, x);
+			if(ph < 0)
+				ph += 2 * M_PI;
+			double st = std::sqrt(std::max(0.0, 1 - ct * ct));
+			double coords[3] = {rr, ct, ph};
+			double tol[3]	 = {1e-12 * (1 + c.hi[0]), 1e-12, st > 1e-6 ? 1e-9 / st : 10.0};
+			for(int j = 0; j < 3; j++)
+			{
+				double v = coords[j];
+				if(j == 2 && v < c.lo[2] - tol[2] && v + 2 * M_PI <= c.hi[2] + tol[2])
+					v += 2 * M_PI;	 // phi2 = 2 pi is the same direction as 0
+				if(!(v >= c.lo[j] - tol[j] && v <= c.hi[j] + tol[j]) && r.contained)
+				{
+					r.contained = 0;
+					r.bad_axis	= j;
+					r.bad_value = v;
+				}
+			}
+			return F.scale;
+		};
+		r.value = libphysica::Integrate_3D(fv, c.lo[0], c.hi[0], c.lo[1], c.hi[1], c.lo[2], c.hi[2], method, c.ncalls);
+	}
 	else
 	{
 		std::function<double(std::vector<double>&, const double)> f = [&](std::vector<double>& x, const double) { return observe(x.data(), (int) x.size()); };
@@ -351,7 +401,7 @@ struct Exec
 
 	std::string describe(const CallSpec& c)
 	{
-		std::string s = fmt("%s%s ndim=%d ncalls=%d family=%d seed=%u region=", METHODS[c.method], c.frontend == 2 ? " via Integrate_2D" : c.frontend == 3 ? " via Integrate_3D" : "", c.ndim, c.ncalls, c.family, c.seed);
+		std::string s = fmt("%s%s ndim=%d ncalls=%d family=%d seed=%u region=", METHODS[c.method], c.frontend == 2 ? " via Integrate_2D" : c.frontend == 3 ? " via Integrate_3D" : c.frontend == 4 ? " via Integrate_3D(Vector; r, cos theta, phi)" : "", c.ndim, c.ncalls, c.family, c.seed);
 		for(int j = 0; j < c.ndim; j++)
 			s += fmt("[%.6g,%.6g]", c.lo[j], c.hi[j]);
 		return s;
@@ -366,6 +416,8 @@ struct Exec
 			ctx.probe(P_FRONT2D);
 		if(c.frontend == 3)
 			ctx.probe(P_FRONT3D);
+		if(c.frontend == 4)
+			ctx.probe(P_FRONT_SPH);
 		if(c.ncalls >= 100000)
 			ctx.probe(P_BUDGET_1E5);
 		if(c.ncalls >= 1000000)
@@ -392,7 +444,7 @@ struct Exec
 		{
 			if(r.bad_axis < 0)
 				ctx.violate("C14:containment:dimension", fmt("integrand called with %d coordinates for a %d-dimensional region; %s", r.bad_size, c.ndim, describe(c).c_str()));
-			ctx.violate(c.frontend ? "C14:containment:frontend-axis" : "C14:containment", fmt("sample coordinate %d = %.17g lies outside its axis limits [%.17g,%.17g]; %s", r.bad_axis, r.bad_value, c.lo[r.bad_axis], c.hi[r.bad_axis], describe(c).c_str()));
+			ctx.violate(c.frontend == 4 ? "C14:containment:spherical-frontend" : c.frontend ? "C14:containment:frontend-axis" : "C14:containment", fmt("sample coordinate %d = %.17g lies outside its axis limits [%.17g,%.17g]; %s", r.bad_axis, r.bad_value, c.lo[r.bad_axis], c.hi[r.bad_axis], describe(c).c_str()));
 		}
 		// 2. entropy: exactly one device draw per call, nothing else
 		if(r.entropy_draws != 1 || entropy_other_sources())
@@ -404,7 +456,7 @@ struct Exec
 			ctx.violate("C14:budget", fmt("%llu integrand evaluations for a budget of %d; %s", (unsigned long long) r.evals, c.ncalls, describe(c).c_str()));
 		Integrand F(c);
 		// 4. constants are integrated exactly to rounding
-		if(c.family == 0)
+		if(c.family == 0 && c.frontend != 4)
 		{
 			ctx.probe(P_CONST_CHECKED);
 			double ex  = (double) F.exact;
@@ -590,7 +642,7 @@ struct Gen
 		if(c.ndim == 2 && r.chance(0.5))
 			c.frontend = 2;
 		if(c.ndim == 3 && r.chance(0.5))
-			c.frontend = 3;
+			c.frontend = r.chance(0.3) ? 4 : 3;
 		static const std::vector<long long> BQ = {1000, 1000, 3000, 3000, 10000, 10000, 30000, 100000};
 		static const std::vector<long long> BT = {1000, 3000, 10000, 10000, 30000, 100000, 100000, 300000, 1000000};
 		c.ncalls = (int) r.pick(thorough ? BT : BQ);
@@ -614,6 +666,16 @@ struct Gen
 				hi = lo + 1;
 			c.lo.push_back(lo);
 			c.hi.push_back(hi);
+		}
+		if(c.frontend == 4)
+		{
+			// r in [r1,r2], cos(theta) in [-1,1], phi in [0,2 pi]: sub-ranges in most runs, the full sphere in some
+			c.family = 0;
+			double r1 = r.chance(0.3) ? 0.0 : r.logrange(1e-3, 1e3), r2 = r1 + r.logrange(1e-3, 1e3);
+			double c1 = r.chance(0.3) ? -1.0 : r.range(-1, 0.9), c2 = r.chance(0.3) ? 1.0 : r.range(c1 + 0.05, 1.0);
+			double p1 = r.chance(0.3) ? 0.0 : r.range(0, 5.5), p2 = r.chance(0.3) ? 2 * M_PI : r.range(p1 + 0.05, 2 * M_PI);
+			c.lo = {r1, c1, p1};
+			c.hi = {r2, std::min(c2, 1.0), std::min(p2, 2 * M_PI)};
 		}
 		for(int j = 0; j < c.ndim; j++)
 		{
